@@ -286,6 +286,7 @@ pub fn run_conn(c: &ConnCase, b: &Built, fault: IoFault, mut on_step: impl FnMut
         }
         step.store(steps, Ordering::SeqCst);
         let _ = on_step(steps, &runner);
+        world.lock().unwrap().cur_poll = steps;
         steps += 1;
         task.poll_once();
     };
@@ -465,13 +466,20 @@ pub struct Walk {
     pub ends: Vec<Option<(u8, u32)>>,
 }
 
-pub fn walk(c: &ConnCase, b: &Built, invocations: &[Invocation]) -> Result<Walk, Fail> {
+pub fn walk(c: &ConnCase, b: &Built, invocations: &[Invocation], observed_ends: usize) -> Result<Walk, Fail> {
     let mut w = Walk { reached: 0, invoked: 0, ends: Vec::new() };
     for (qi, q) in c.reqs.iter().enumerate() {
         w.reached += 1;
         if b.kinds[qi] == Kind::ParamsAbort {
             w.ends.push(Some((wire::ST_COMPLETE, 0)));
-            continue; // the connection stays usable whatever the flags said
+            // With the keep-connection flag the connection goes on (C11). Without it the
+            // statements are silent (C07's "if and only if" is about requests whose preamble
+            // arrived completely): the server may go on, as the pinned code does, or close after
+            // this EndRequest - decided by what it did.
+            if q.pre.flags & 1 == 0 && observed_ends <= w.ends.iter().filter(|e| e.is_some()).count() {
+                break;
+            }
+            continue;
         }
         let j = w.invoked;
         w.invoked += 1;
@@ -513,7 +521,12 @@ pub fn check_clean_run(c: &ConnCase, b: &Built, m: &ConnModel, r: &RunResult) ->
         },
         RunEnd::StepLimit => vfail!("conn-spin", "connection task still running after {} polls", r.steps),
     }
-    let wk = walk(c, b, &r.invocations)?;
+    let observed_ends = {
+        let ids: Vec<u16> = c.reqs.iter().map(|q| q.pre.id).collect();
+        let (recs, _) = wire::decode_log(&w.log).map_err(|e| Fail::new("conn-log-malformed", e))?;
+        recs.iter().filter(|r| r.ty == wire::T_END && ids.contains(&r.id)).count()
+    };
+    let wk = walk(c, b, &r.invocations, observed_ends)?;
     vensure!(r.invocations.len() == wk.invoked, "conn-invocations", "handler invoked {} times, expected {} (requests on the connection: {}, kinds {:?})", r.invocations.len(), wk.invoked, c.reqs.len(), b.kinds);
     let ids: Vec<u16> = c.reqs.iter().map(|q| q.pre.id).collect();
     let view = view_log(&w.log)?;
@@ -570,7 +583,7 @@ pub fn check_clean_run(c: &ConnCase, b: &Built, m: &ConnModel, r: &RunResult) ->
     // management replies: in arrival order, nothing else, and at least everything owed for
     // records up to the last preamble the server dealt with (records behind it may still sit
     // unprocessed in the buffer when the connection ends; C08 decides when that is acceptable)
-    let all_served = wk.reached == c.reqs.len() && wk.ends.last().is_some_and(|e| e.is_some()) && (c.reqs[wk.reached - 1].pre.flags & 1 == 1 || b.kinds[wk.reached - 1] == Kind::ParamsAbort);
+    let all_served = wk.reached == c.reqs.len() && wk.ends.last().is_some_and(|e| e.is_some()) && c.reqs[wk.reached - 1].pre.flags & 1 == 1;
     if all_served {
         vensure!(w.eof_delivered, "conn-early-exit", "connection task ended before the peer closed a reusable connection");
     }
